@@ -30,14 +30,14 @@ var phaseName = [...]string{"ake", "data", "smp", "post", "end", "second"}
 
 // passOpts selects the script variant and the menus of one exploration pass.
 type passOpts struct {
-	name       string
-	withSMP    bool
-	faultPhase [nPhases]bool // phases whose messages get a fault menu
-	subOffsets int           // substitution offsets per logical message
-	fragOps    bool          // piece-level dup/drop/swap when a message is fragmented
-	benign     bool          // offer the benign choices (fragment sizes, simultaneous start, secrets, ...)
-	smpChoicesOnly bool      // of the benign choices offer only the SMP ones (secret class, question, restart)
-	bound      int
+	name           string
+	withSMP        bool
+	faultPhase     [nPhases]bool // phases whose messages get a fault menu
+	subOffsets     int           // substitution offsets per logical message
+	fragOps        bool          // piece-level dup/drop/swap when a message is fragmented
+	benign         bool          // offer the benign choices (fragment sizes, simultaneous start, secrets, ...)
+	smpChoicesOnly bool          // of the benign choices offer only the SMP ones (secret class, question, restart)
+	bound          int
 	// fixed benign settings used when the pass does not offer the choice (indices into the menus)
 	fixFragA, fixFragB int
 }
@@ -45,20 +45,20 @@ type passOpts struct {
 var fragSizes = []int{0, 18, 19, 50, 200}
 
 type party struct {
-	name    string
-	idx     int
-	conv    *otr.Conversation
-	key     *otr.PrivateKey
-	reasm   otrref.Reassembler
-	secret  []byte
-	sent    [][]byte // plaintexts given to Send while encrypted, in order
-	gotIdx  int      // deliveries from the peer so far cover peer.sent[:gotIdx] (delivered or skipped)
-	got     int      // number of encrypted plaintexts delivered to this party
-	newKeys int
-	needed  int
+	name             string
+	idx              int
+	conv             *otr.Conversation
+	key              *otr.PrivateKey
+	reasm            otrref.Reassembler
+	secret           []byte
+	sent             [][]byte // plaintexts given to Send while encrypted, in order
+	gotIdx           int      // deliveries from the peer so far cover peer.sent[:gotIdx] (delivered or skipped)
+	got              int      // number of encrypted plaintexts delivered to this party
+	newKeys          int
+	needed           int
 	complete, failed int
-	ended   int
-	lastErr string
+	ended            int
+	lastErr          string
 }
 
 // lmsg is one logical message in flight: the result of one encode call.
@@ -72,30 +72,33 @@ type lmsg struct {
 }
 
 type exec struct {
-	c   *vf.Ctx
-	ch  *vf.Chooser
-	o   *passOpts
-	p   [2]*party
-	q   []*lmsg
-	reg map[string]*lmsg // every encoded message the real conversations produced
+	c       *vf.Ctx
+	ch      *vf.Chooser
+	o       *passOpts
+	p       [2]*party
+	q       []*lmsg
+	reg     map[string]*lmsg // every encoded message the real conversations produced
 	regData []*lmsg
 
-	phase    int
-	netFault int // dup/drop/swap/substitution/piece-level deviations taken
-	abort    int
-	secClass int
-	devs     []string
-	trace    []string
-	dead     bool
-	abortDone bool
+	phase        int
+	netFault     int // dup/drop/swap/substitution/piece-level deviations taken
+	abort        int
+	secClass     int
+	devs         []string
+	trace        []string
+	dead         bool
+	abortDone    bool
 	withQuestion bool
-	pieces   int
-	trans    int
-	states   map[string]struct{}
-	wire     []*lmsg // every logical message emitted, in order (recording)
-	stopAt   int     // stop just before delivering this logical message (counted from 0); -1 = never
-	nLogical int
-	stopped  *lmsg // the message that was about to be delivered when the execution stopped
+	pieces       int
+	pieceCap     int // guard against message storms (0 = unlimited)
+	trans        int
+	states       map[string]struct{}
+	wire         []*lmsg // every logical message emitted, in order (recording)
+	stopAt       int     // stop just before delivering this logical message (counted from 0); -1 = never
+	nLogical     int
+	stopped      *lmsg    // the message that was about to be delivered when the execution stopped
+	firstCommit  [2]*lmsg // first DH commit of each side (SYN-crossing rule)
+	firstKeyFrom int      // who sent the first DH key message (-1: nobody yet)
 
 	viol []violation
 }
@@ -130,7 +133,7 @@ func (e *exec) logf(f string, a ...any) {
 }
 
 func newExec(c *vf.Ctx, ch *vf.Chooser, o *passOpts, label string) *exec {
-	e := &exec{c: c, ch: ch, o: o, reg: map[string]*lmsg{}, states: map[string]struct{}{}, stopAt: -1}
+	e := &exec{c: c, ch: ch, o: o, reg: map[string]*lmsg{}, states: map[string]struct{}{}, stopAt: -1, firstKeyFrom: -1, pieceCap: 60000}
 	for i := 0; i < 2; i++ {
 		e.p[i] = &party{idx: i, name: string(rune('A' + i)), key: dsaKeys[i]}
 		e.p[i].conv = &otr.Conversation{PrivateKey: dsaKeys[i], Rand: newDetRand(label + "/" + e.p[i].name)}
@@ -225,6 +228,12 @@ func (e *exec) emit(from int, out [][]byte, what string) {
 		e.reg[string(m.whole)] = m
 		if m.kind == otrref.TypeData {
 			e.regData = append(e.regData, m)
+		}
+		if m.kind == otrref.TypeDHCommit && e.firstCommit[from] == nil {
+			e.firstCommit[from] = m
+		}
+		if m.kind == otrref.TypeDHKey && e.firstKeyFrom < 0 {
+			e.firstKeyFrom = from
 		}
 		e.wire = append(e.wire, m)
 		e.q = append(e.q, m)
@@ -379,14 +388,14 @@ func (e *exec) deliverAll(m *lmsg, pieces [][]byte) {
 }
 
 type recvResult struct {
-	out     []byte
-	enc     bool
-	change  otr.SecurityChange
-	toSend  [][]byte
-	err     error
+	out      []byte
+	enc      bool
+	change   otr.SecurityChange
+	toSend   [][]byte
+	err      error
 	panicked bool
-	pval    any
-	stack   string
+	pval     any
+	stack    string
 }
 
 func protectedReceive(c *otr.Conversation, in []byte) (r recvResult) {
@@ -462,9 +471,9 @@ func firstLines(s string, n int) string {
 // addressee and applies the per-call oracle.
 func (e *exec) deliver(m *lmsg, piece []byte) {
 	e.pieces++
-	if e.pieces > 60000 {
+	if e.pieceCap > 0 && e.pieces > e.pieceCap {
 		e.dead = true
-		e.c.Capped("an execution exceeded 60000 delivered pieces")
+		e.c.Capped(fmt.Sprintf("an execution exceeded %d delivered pieces", e.pieceCap))
 		return
 	}
 	to := e.p[m.to]
